@@ -57,7 +57,7 @@ def conv(t, w=None):
 class Pruner:
     """incremental feasibility checks under the machine's assumptions"""
     def __init__(self, timeout_ms=2000):
-        self.s = z3.Solver()
+        self.s = z3.SimpleSolver()
         self.s.set('timeout', timeout_ms)
         self.nass = 0
         self.calls = 0; self.pruned = 0; self.time = 0.0
@@ -75,8 +75,17 @@ class Pruner:
         if cond is False: return False
         t0 = time.time()
         self.calls += 1
-        r = self.s.check(conv(cond, 0))
-        self.time += time.time() - t0
+        e = conv(cond, 0)
+        self.s.push(); self.s.add(e)
+        r = self.s.check()
+        self.s.pop()
+        dt = time.time() - t0
+        self.time += dt
+        import os
+        if dt > 1.0 and os.environ.get('XSYM_DUMP_SLOW'):
+            self.s.push(); self.s.add(e)
+            open('/tmp/slow_%d.smt2' % self.calls, 'w').write(self.s.to_smt2()); self.s.pop()
+            print('SLOW feasibility check %d: %.2fs -> %s' % (self.calls, dt, r))
         if r == z3.unsat:
             self.pruned += 1
             return False
